@@ -123,7 +123,9 @@ claim("C08", "property-based testing: generated call histories against a build-a
       "through remembered and stale interfaces, re-seeding) are executed on a real Model next to an abstract definition; "
       "every seeded simulation and 2..4 final modes are compared with a model built at once by the constructor "
       "(identical stochastic output, 1e-9 deterministic, also with permuted species declaration), two seeded runs are "
-      "identical, dictionaries are unchanged by simulating, stale interfaces must raise or give the current result.",
+      "identical, dictionaries are unchanged by simulating, stale interfaces must raise or give the current result.  "
+      "2.5k / 30k LineageModel histories (lineage rules and events added one at a time around initialisations and "
+      "seeded lineage simulations) are compared with a LineageModel given the same definition at once.",
       _TB, "DESIGN.md section 4 C08")
 
 claim("C17", "property-based testing: generated models / lineage models / result objects, clone round trip with behavioural comparator and seeded-simulation differential (Hypothesis)",
